@@ -13,12 +13,12 @@ import coq as coqlib
 import repo as repolib
 
 PROBE_ENV = {'NIXV_C01_UBPROBE': '1', 'NIXV_C01_XPROBE': '1', 'NIXV_C16': '1'}
-QUICK_PER_PROP = 400
+QUICK_PER_PROP = 300
 
 
 class C16(Prop):
     id = 'C16'
-    driver = None
+    driver = None       # the aggregator builds the drivers of the other properties and harness/drv_C16.cpp itself
     model = None
     technique = ('Coq totality / no-UB theorems for the modelled index and buffer logic + all correspondence corpora and misuse '
                  'streams under ASan+UBSan')
@@ -132,6 +132,45 @@ class C16(Prop):
                                       'replay_with': 'python3 tools/check.py %s --replay <this file>' % sp.id})
                     violations.append(p)
                     say('VIOLATION property=C16 replay=%s' % p)
+            # ---- handle-misuse stream (harness/drv_C16.cpp): every listed API call with one handle replaced by a
+            # none / deleted / closed / foreign one; no model: the only judgement is "value or exception, never a crash"
+            import subprocess
+            mis_exe, _ = repolib.build_driver('drv_C16', repo)
+            lst = subprocess.run([mis_exe, 'list'], capture_output=True, text=True).stdout.split('\n')
+            mcases = [Case(l, 'misuse') for l in lst if l.startswith('misuse ')]
+            mres, _ = run_sharded(mis_exe, lambda cf, wd: [cf, wd], mcases, 'C16-misuse', True)
+            for c, il in zip(mcases, mres):
+                total += 1
+                dist['misuse'] = dist.get('misuse', 0) + 1
+                a = il[0]
+                if a.startswith('OK') or a.startswith('ERR'):
+                    nontrivial.add(hashlib.sha1(c.text().encode()).hexdigest())
+                    continue
+                t = c.lines[0].split(' ')
+                sig = {'sub': 'misuse', 'kind': 'crash', 'call': t[1], 'role': t[2], 'handle': t[3], 'why': a[6:].split(' ')[0][:80]}
+                crashes_seen.append('misuse:%s:%s:%s' % (t[1], t[3], sig['why']))
+                matched = False
+                for kf in known:
+                    if sig_matches(kf.get('signature', {}), sig):
+                        if kf not in hit_known:
+                            hit_known.append(kf)
+                            say('KNOWN-FINDING: property=C16 %s' % kf.get('what', ''))
+                        matched = True
+                        break
+                # one report per (call, crash reason): the same defect shows for several handle kinds
+                key = {'call': t[1], 'why': sig['why']}
+                if matched or key in seen:
+                    continue
+                seen.append(key)
+                if len(violations) >= engine.MAX_REPORT:
+                    suppressed += 1
+                    continue
+                pth = write_replay(self, len(violations) + 1, c,
+                                   {'what': 'implementation died under the sanitizers: %s' % a, 'sub_property': 'misuse',
+                                    'signature': json.dumps(sig),
+                                    'replay_with': 'build/repo-main/drv_C16 <this file> <workdir>  (ASAN_OPTIONS=detect_leaks=0)'})
+                violations.append(pth)
+                say('VIOLATION property=C16 replay=%s' % pth)
         finally:
             for k, v in old_env.items():
                 if v is None:
@@ -173,6 +212,15 @@ class C16(Prop):
         if not lines or not sub:
             print('replay file names a broken proof obligation; re-running the check shows it')
             return 1
+        if sub == 'misuse':
+            mis_exe, _ = repolib.build_driver('drv_C16', repo)
+            il, _ = run_sharded(mis_exe, lambda cf, wd: [cf, wd], [Case(lines, 'replay')], 'C16-replay', True)
+            print('implementation :', il[0])
+            if any(a.startswith('CRASH') for a in il[0]):
+                print('VIOLATION property=C16 replay=%s' % path)
+                return 1
+            print('no violation on this input')
+            return 0
         sp = importlib.import_module(sub).PROP
         os.environ.update(PROBE_ENV)
         impl_exe, _ = repolib.build_driver(sp.driver, repo)
